@@ -58,7 +58,8 @@ enum FaultKind : unsigned {
   F_EVENT_SUBSET = 1u << 6,   // epoll_wait reports only some of the ready descriptors
   F_SPURIOUS     = 1u << 7,   // condition variable spurious wake-up
   F_COND_ANY     = 1u << 8,   // notify_one wakes a PRNG-chosen waiter instead of the oldest
-  F_ALL          = 0x1ffu
+  F_STALL        = 1u << 9,   // a thread about to take a mutex is descheduled for a while (virtual ms) although it is runnable: a stalled / pre-empted thread
+  F_ALL          = 0x3ffu
 };
 const char *fault_name(unsigned kind);
 
@@ -67,6 +68,7 @@ void fault_scope(uint64_t fseed, unsigned mask);
 // per-kind probability (permille) and magnitudes
 void fault_rate(unsigned kind, unsigned permille);
 void fault_late_max_ms(long ms);
+void fault_stall_max_ms(long ms);
 // descriptors on which read/write faults may be injected (default: none).
 void fault_fd(int fd, bool on);
 void fault_all_sockets(bool on);     // every socket/pipe not explicitly excluded
